@@ -132,6 +132,10 @@ def encoders(tier):
             out.append(("encode_bitpacked", dict(width=w, n=n)))
         out.append(("encode_bitpacked", dict(width=w, n=9, with_length=0)))
         out.append(("encode_bitpacked", dict(width=w, n=9, with_length=1)))
+        if w in (1, 3, 8, 12) or tier == "thorough":
+            # appended behind bytes already in the buffer (levels, then indices, share one output)
+            out.append(("encode_bitpacked", dict(width=w, n=9, with_length=1, start=5)))
+            out.append(("encode_bitpacked", dict(width=w, n=7, with_length=0, start=3)))
         out.append(("bitpack_roundtrip", dict(width=w, n=8)))
         if tier == "thorough":
             out.append(("bitpack_roundtrip", dict(width=w, n=16)))
